@@ -37,10 +37,11 @@ def rule_checksum_gate(ctx: Ctx, rep: Report) -> None:
     hits = [n for t, pol, n in ctx.refusals(d) if pol and isinstance(t, ast.Compare) and isinstance(t.ops[0], ast.NotEq) and "checksum" in norm(t) and ("h256[:4]" in norm(t) or "hash256" in norm(t))]
     ok = bool(hits) and g.must_pass([h.id for h in hits]) is None
     rep.ob(rule, "base58.decode", ok, d.where(), "checksum != hash256(payload)[:4] refused on every path to a return" if ok else "a payload is returned without the checksum comparison")
-    sp = [n for n in own_nodes(d.node) if isinstance(n, ast.Assign) and isinstance(n.targets[0], ast.Tuple) and norm(n.targets[0]) == "(result, checksum)"]
-    rep.ob(rule, "base58.decode:split", bool(sp) and norm(sp[0].value) == "(result[:-4], result[-4:])", d.where(), "payload = all but the last 4 bytes, checksum = the last 4")
-    h = [n for n in own_nodes(d.node) if isinstance(n, ast.Assign) and norm(n.targets[0]) == "h256"]
-    rep.ob(rule, "base58.decode:hash_of_payload", bool(h) and norm(h[0].value) == "hash256(result)" and bool(sp) and h[0].lineno > sp[0].lineno, d.where(), "the hash is of the payload (after the split)")
+    mb: dict[str, str] = {}
+    sp = PT.find(d.node, "$res, $chk = ($res[:-4], $res[-4:])", mb)
+    rep.ob(rule, "base58.decode:split", sp is not None, d.where(sp), "payload = all but the last 4 bytes, checksum = the last 4")
+    h = PT.find(d.node, "$h = hash256($res)", mb)
+    rep.ob(rule, "base58.decode:hash_of_payload", h is not None and sp is not None and h.lineno > sp.lineno, d.where(h), "the hash is of the payload (after the split)")
     e = ctx.func(f"{B58}.encode")
     rets = [n for n in own_nodes(e.node) if isinstance(n, ast.Return)]
     rep.ob(rule, "base58.encode", bool(rets) and norm(rets[0].value) == "_b58encode(v + h256[:4])", e.where(), "appends hash256(v)[:4]")
@@ -77,7 +78,10 @@ def rule_constants(ctx: Ctx, rep: Report) -> None:
     rep.ob(rule, "bech32:hrp_expand", bool(r) and norm(r[0].value) == "[ord(x) >> 5 for x in hrp] + [0] + [ord(x) & 31 for x in hrp]", he.where(), "high bits, 0, low bits")
     cc = ctx.func(f"{BE}._create_checksum")
     txt = PT.text(cc)
-    rep.ob(rule, "bech32:create_checksum", "[*values, 0, 0, 0, 0, 0, 0]" in txt and "^ m" in txt and "polymod >> 5 * (5 - i) & 31 for i in range(6)" in txt.replace("(polymod >> 5 * (5 - i))", "polymod >> 5 * (5 - i)"), cc.where(), "six zero values appended, xor the constant, six 5-bit groups")
+    mcs: dict[str, str] = {}
+    okc = PT.has(cc.node, "$pm = _polymod([*$vals, 0, 0, 0, 0, 0, 0]) ^ m", mcs) and (
+        PT.has(cc.node, "return [$pm >> 5 * (5 - $i) & 31 for $i in range(6)]", mcs))
+    rep.ob(rule, "bech32:create_checksum", bool(okc), cc.where(), "six zero values appended, xor the constant, six 5-bit groups")
     pm = ctx.func(f"{BE}._polymod")
     rep.ob(rule, "bech32:polymod_shape", "(chk & 33554431) << 5 ^ value ^ _TAPS[chk >> 25]" in norm(pm.node), pm.where(), "chk = (chk & 0x1ffffff) << 5 ^ v ^ taps[chk >> 25]")
 
@@ -90,10 +94,13 @@ def rule_ranges(ctx: Ctx, rep: Report) -> None:
     rep.ob(rule, "bech32:separator", has(cs, "pos", "==", -1) is not None, d.where(), "no separator refused")
     rep.ob(rule, "bech32:hrp_nonempty", has(cs, "pos", "==", 0) is not None, d.where(), "empty HRP refused")
     rep.ob(rule, "bech32:checksum_len", has(cs, "pos + 7", ">", "len(text)") is not None, d.where(), "fewer than six checksum characters refused")
-    sep = [n for n in own_nodes(d.node) if isinstance(n, ast.Assign) and norm(n.targets[0]) == "pos"]
-    rep.ob(rule, "bech32:last_separator", bool(sep) and norm(sep[0].value) in ("text.rfind('1')",), d.where(), "the separator is the LAST '1'")
-    mc = [c for c in cs if c.op == "!=" and {c.subject, c.value_text} == {"text.upper()", "text"} and ("text.lower() != text", True) in c.facts] + \
-         [c for c in cs if c.op == "!=" and {c.subject, c.value_text} == {"text.lower()", "text"} and ("text.upper() != text", True) in c.facts]
+    md: dict[str, str] = {}
+    sep = PT.find(d.node, "$pos = $text.rfind('1')", md)
+    pos_, text_ = md.get("pos", "pos"), md.get("text", "text")
+    rep.ob(rule, "bech32:last_separator", sep is not None and has(cs, pos_, "==", -1) is not None, d.where(sep), "the separator is the LAST '1'")
+    lo, up = f"{text_}.lower()", f"{text_}.upper()"
+    mc = [c for c in cs if c.op == "!=" and {str(c.subject), str(c.value_text)} == {up, text_} and any(p and str(t) in (f"{lo} != {text_}", f"{text_} != {lo}") for t, p in c.facts)] + \
+         [c for c in cs if c.op == "!=" and {str(c.subject), str(c.value_text)} == {lo, text_} and any(p and str(t) in (f"{up} != {text_}", f"{text_} != {up}") for t, p in c.facts)]
     rep.ob(rule, "bech32:mixed_case", bool(mc), d.where(), "a string that is neither all lower nor all upper case is refused")
     rep.ob(rule, "bech32:data_alphabet", sum(1 for c in cs if c.subject == "-1" or (c.op == "in" and c.value_text.startswith("indices"))) >= 1 or sum(1 for t, p, _ in ctx.refusals(d) if norm(t).startswith("-1 in indices")) >= 2, d.where(), "characters outside the charset refused (data and checksum)")
     # HRP character range: BIP173 says 33..126
